@@ -96,5 +96,15 @@ def run(ctx):
     ok = len(nows) == 1 and len(calls) == 1 and not sr.in_loop(nows[0]) and not sr.in_loop(calls[0]) and sev.call_args(calls[0])[2] == sev.call_term(nows[0])
     ctx.check("clock", "one-reading-per-batch", ok, "SystemTime::now() is read once per batch, outside the per-request loop, and passed to make_srep",
               "clock is read %d times (in loop: %s); make_srep calls: %d" % (len(nows), [bool(sr.in_loop(b)) for b in nows], len(calls)), ctx.loc(sr))
+    # every response of the batch carries the SREP signed in this invocation (not one kept from an earlier batch, whose midpoint is an older reading)
+    mrs = [bb for bb, t in sr.calls() if sm.MAKE_RESPONSE in P.call_targets(t)]
+    for mb in mrs:
+        a = [W.expand(x) for x in sev.call_args(mb)]
+        srep_args = [x for x in a[1:] if values.contains(x, lambda y: is_call(y) and sm.MAKE_SREP.endswith(strip_generics(y[1]).split("::")[-1]) and "make_srep" in y[1]) or
+                     values.contains(x, lambda y: isinstance(y, tuple) and y and y[0] == "field" and "srep" in str(y[2]).lower())]
+        fresh = bool(calls) and any(values.strip_payload(x) == sev.call_term(calls[0]) or x == sev.call_term(calls[0]) for x in a[1:])
+        ctx.check("clock", "responses-carry-this-batchs-SREP", fresh, "make_response is given the SREP returned by this invocation's make_srep(.., now, ..)",
+                  "the SREP put into responses is %s: it can be one signed for an earlier batch, whose midpoint is not the clock reading of this batch" % [fmt(x)[:160] for x in srep_args[:2]], sr.loc(mb))
+    ctx.floor("clock", len(mrs), 1, "make_response calls in send_responses")
     others = [c for c in P.callers(sm.MAKE_SREP) if not c[0].startswith("roughenough_") and c[0] != sm.SEND]
     ctx.check("clock", "make_srep-callers", not others, "make_srep is only called from send_responses", "make_srep is also called from %s" % sorted(c[0] for c in others))
